@@ -124,3 +124,40 @@ def check_tree(src_root, exclude=('stix2/workbench.py',)):
                             pass
     for ob in obs: discharge(ob, None, use_external=False)
     return obs, notes, sites
+
+
+# ------------------------------------------------------------------ frame condition: validators read no mutable module state
+MUTABLE_CTORS = {'set', 'dict', 'list', 'collections.defaultdict', 'defaultdict', 'collections.OrderedDict', 'OrderedDict', 'collections.Counter', 'WeakValueDictionary',
+                 'weakref.WeakValueDictionary', 'functools.lru_cache', 'lru_cache', 'functools.cache', 'cache'}
+
+
+def purity_obligations(src_root, functions, allow=()):
+    """For each 'relpath::qualname': the function's result depends only on its arguments -- it reads/writes no module-level
+    mutable container, declares no `global`, and is not wrapped in a memoising decorator.  Returns [Obligation]."""
+    out = []
+    for target in functions:
+        rel, qual = target.split('::')
+        try:
+            tree = ast.parse(open(os.path.join(src_root, rel)).read())
+            fn = E.find_def(tree, qual)
+        except Exception as ex:
+            ob = Obligation('frame', f'{target}: function found', 'frame', [], z3.BoolVal(True), True); ob.result = 'undecided'; ob.detail = str(ex); out.append(ob); continue
+        mutable = {}
+        for n in tree.body:
+            if isinstance(n, (ast.Assign, ast.AnnAssign)):
+                tgts = n.targets if isinstance(n, ast.Assign) else [n.target]
+                v = n.value
+                if v is None: continue
+                is_mut = isinstance(v, (ast.Dict, ast.List, ast.Set, ast.DictComp, ast.ListComp, ast.SetComp)) or (isinstance(v, ast.Call) and ast.unparse(v.func) in MUTABLE_CTORS)
+                for t in tgts:
+                    if isinstance(t, ast.Name) and is_mut: mutable[t.id] = ast.unparse(v)[:40]
+        local = {a.arg for a in fn.args.args + fn.args.kwonlyargs} | {n.id for n in ast.walk(fn) if isinstance(n, ast.Name) and isinstance(n.ctx, ast.Store)}
+        reads = sorted({n.id for n in ast.walk(fn) if isinstance(n, ast.Name) and isinstance(n.ctx, ast.Load) and n.id in mutable and n.id not in local and n.id not in allow})
+        globs = [g for n in ast.walk(fn) if isinstance(n, (ast.Global, ast.Nonlocal)) for g in n.names]
+        decos = [ast.unparse(d) for d in fn.decorator_list if ast.unparse(d).split('(')[0] in MUTABLE_CTORS]
+        ok = not reads and not globs and not decos
+        why = '; '.join(filter(None, [f'reads module-level mutable {reads}' if reads else '', f'declares global {globs}' if globs else '', f'memoising decorator {decos}' if decos else '']))
+        ob = Obligation('frame', f'{target}: result depends only on the arguments (no module-level mutable state, no global, no memoisation)' + (f' -- {why}' if why else ''),
+                        'frame', [], z3.BoolVal(ok), True)
+        discharge(ob, None, use_external=False); out.append(ob)
+    return out
